@@ -82,6 +82,22 @@ fn main() {
             }
             eprintln!("steps={} events={:?} logs={:?}", obs.steps, obs.events, obs.logs);
         }
+        "lines" => {
+            // debug: print the logical lines of stdin
+            use pasfmt_core::prelude::*;
+            exec::init();
+            let mut input = String::new();
+            std::io::Read::read_to_string(&mut std::io::stdin(), &mut input).unwrap();
+            match exec::lex_parse(&input, u64::MAX) {
+                Ok(p) => {
+                    for (i, l) in p.lines.iter().enumerate() {
+                        let toks: Vec<String> = l.get_tokens().iter().map(|&t| p.tokens[t].get_content().chars().take(12).collect()).collect();
+                        println!("#{i} {:?} level={} parent={:?} tokens={:?} {:?}", l.get_line_type(), l.get_level(), l.get_parent().map(|p| (p.line_index, p.global_token_index)), l.get_tokens().iter().take(3).collect::<Vec<_>>(), toks);
+                    }
+                }
+                Err(e) => println!("PANIC {} at {}", e.message, e.location),
+            }
+        }
         "gen" => {
             let seed: u64 = args.get(2).and_then(|s| s.parse().ok()).unwrap_or(1);
             let size: usize = args.get(3).and_then(|s| s.parse().ok()).unwrap_or(20);
